@@ -102,3 +102,29 @@ def build(flavour="plain", repo=None, quiet=True):
 
 if __name__ == "__main__":
     print(build(sys.argv[1] if len(sys.argv) > 1 else "plain", quiet=False))
+
+
+def driver(bdir, name, extra_libs=(), cflags=()):
+    """Compile /verif/harness/<name>.c against the scratch build (cached by source + build stamp)."""
+    from common import VERIF
+    src = os.path.join(VERIF, "harness", name + ".c")
+    outd = os.path.join(bdir, "verif-drv")
+    os.makedirs(outd, exist_ok=True)
+    out = os.path.join(outd, name)
+    stamp = open(os.path.join(bdir, ".verif_stamp")).read().strip()
+    key = hashlib.sha256((stamp + open(src).read()).encode()).hexdigest()
+    kf = out + ".key"
+    with Lock(out + ".lock"):
+        if os.path.exists(out) and os.path.exists(kf) and open(kf).read() == key:
+            return out
+        cc = "clang" if "asan" in os.path.basename(bdir) else "gcc"
+        cmd = [cc, "-g", "-O1", "-D" + GUARD, "-DHAVE_CONFIG_H", "-I" + os.path.join(bdir, "lib"), "-I" + bdir, "-o", out, src] + list(cflags)
+        cmd += [os.path.join(bdir, "lib", l) for l in ("libsupport.a", "libext2fs.a", "libe2p.a", "libcom_err.a")] + list(extra_libs) + ["-lpthread"]
+        if cc == "clang":
+            cmd.insert(1, "-fsanitize=address,undefined")
+        rc, o, e = run(cmd, timeout=300)
+        if rc != 0:
+            raise RuntimeError("driver %s does not compile against the working tree:\n%s" % (name, e.decode()[-3000:]))
+        with open(kf, "w") as f:
+            f.write(key)
+    return out
